@@ -48,12 +48,12 @@ def thr : Nat := Gen.C18.ceilThresholdMs
 def ceilSec (t : Nat) : Nat := ((t + 999) / 1000) * 1000
 
 /-- `TimeoutHandle.start`: `when = now + timeout; if timeout >= ceil_threshold: when = ceil(when)` -/
-def totalDeadline (now timeout : Nat) : Nat :=
-  if timeout ≥ thr then ceilSec (now + timeout) else now + timeout
+def totalDeadline (th now timeout : Nat) : Nat :=
+  if timeout ≥ th then ceilSec (now + timeout) else now + timeout
 
 /-- `ceil_timeout`: `when = now + delay; if delay > ceil_threshold: when = ceil(when)` -/
-def ctxDeadline (now delay : Nat) : Nat :=
-  if delay > thr then ceilSec (now + delay) else now + delay
+def ctxDeadline (th now delay : Nat) : Nat :=
+  if delay > th then ceilSec (now + delay) else now + delay
 
 /-! ## vocabulary -/
 
@@ -119,6 +119,7 @@ structure Cfg where
   bufsize : Nat := 65536
   https : Bool := false            -- TLS: after the TCP connect the handshake runs inside `create_connection`
   closeDelim : Bool := false       -- response body delimited by connection close (no Content-Length, not chunked)
+  thr : Nat := Gen.C18.ceilThresholdMs   -- `ClientTimeout.ceil_threshold` in ms
   early : Bool := false            -- the caller streams `resp.content` and leaves `async with` after the first chunk
   expect100 : Bool := false        -- `Expect: 100-continue`: the body is written only after a 1xx response arrived
   c0 : Nat := 0                    -- `Task.cancelling()` of the calling task when it starts the request
@@ -138,6 +139,7 @@ structure Piece where
   bodyBytes : Nat     -- payload bytes this piece adds to the stream
   eof : Bool          -- the message is complete after this piece
   interim : Bool := false   -- the last complete message in this piece is a 1xx interim response (not 101)
+  redirect : Bool := false  -- the head completed by this piece is a followed 3xx redirect with an empty body
 deriving Repr, DecidableEq
 
 inductive Ev where
@@ -182,6 +184,10 @@ structure St where
   rpaused : Bool := false
   queued : List Piece := []
   respReleased : Bool := false      -- the response no longer owns a connection
+  redir : Bool := false             -- the response being awaited turned out to be a redirect that will be followed
+  hop : Nat := 0                    -- number of redirects followed so far
+  oldPooled : Nat := 0              -- connections of earlier hops handed back to the pool
+  attOff : Nat := 0                 -- connect attempts made on earlier hops (scripted attempts are numbered globally)
   reqSent : Bool := false           -- `start_timeout()` was called: the request is sent completely, we wait for the peer
   wait100 : Bool := false           -- the writer task waits for `100 Continue` before writing the body
   tls : Bool := false               -- the current connect attempt is in its TLS handshake
@@ -318,7 +324,7 @@ def finish (s : St) (o : Outcome) : St :=
 def attemptConn (cfg : Cfg) (s : St) : St :=
   let s := match cfg.sockConnect with
     | some d => if d = 0 then { s with sockCtx := .entered, sockT := none, sockBase := s.cancelling }
-                else { s with sockCtx := .entered, sockT := some (ctxDeadline s.now d, s.seq), seq := s.seq + 1,
+                else { s with sockCtx := .entered, sockT := some (ctxDeadline cfg.thr s.now d, s.seq), seq := s.seq + 1,
                               sockBase := s.cancelling }
     | none => { s with sockCtx := .entered, sockT := none, sockBase := s.cancelling }
   { s with pc := .connecting, wake := none, tls := false }
@@ -326,7 +332,7 @@ def attemptConn (cfg : Cfg) (s : St) : St :=
 /-- placeholder acquired; `_create_connection` up to its first suspension -/
 def createConn (cfg : Cfg) (s : St) : St :=
   let s := { s with slot := .placeholder }
-  if !cfg.useDns then attemptConn cfg { s with addrsLeft := 1, attempt := 0 }
+  if !cfg.useDns || decide (s.hop > 0) then attemptConn cfg { s with addrsLeft := 1, attempt := 0 }
   else if s.cached then attemptConn cfg { s with addrsLeft := cfg.naddr, attempt := 0 }
   else match s.lookup with
     | .running _ => { s with dnsWaitR := true, pc := .dnsWaiter, wake := none }
@@ -335,11 +341,11 @@ def createConn (cfg : Cfg) (s : St) : St :=
 /-- `TimeoutHandle.start()` and entering `ceil_timeout(connect)` -/
 def armStart (cfg : Cfg) (s : St) : St :=
   let s := match cfg.effTotal with
-    | some d => if d = 0 then s else { s with totalT := some (totalDeadline s.now d, s.seq), seq := s.seq + 1 }
+    | some d => if d = 0 then s else { s with totalT := some (totalDeadline cfg.thr s.now d, s.seq), seq := s.seq + 1 }
     | none => s
   match cfg.connect with
     | some d => if d = 0 then { s with connCtx := .entered, connBase := s.cancelling, tcBase := s.cancelling }
-                else { s with connCtx := .entered, connT := some (ctxDeadline s.now d, s.seq), seq := s.seq + 1,
+                else { s with connCtx := .entered, connT := some (ctxDeadline cfg.thr s.now d, s.seq), seq := s.seq + 1,
                               connBase := s.cancelling, tcBase := s.cancelling }
     | none => { s with connCtx := .entered, connBase := s.cancelling, tcBase := s.cancelling }
 
@@ -421,6 +427,31 @@ def throwAt (cfg : Cfg) (s : St) (e : Exc) : St :=
   | .think => finish (releaseConn cfg s) e.outcome   -- `async with` exit: release()
   | _ => s
 
+/-- entering `ceil_timeout(connect)` for the connection of a further hop (`BaseConnector.connect`) -/
+def armConn (cfg : Cfg) (s : St) : St :=
+  match cfg.connect with
+    | some d => if d = 0 then { s with connCtx := .entered, connBase := s.cancelling }
+                else { s with connCtx := .entered, connT := some (ctxDeadline cfg.thr s.now d, s.seq), seq := s.seq + 1,
+                              connBase := s.cancelling }
+    | none => { s with connCtx := .entered, connBase := s.cancelling }
+
+/-- `ClientSession._request`, redirect branch: the 3xx response is complete, `resp.release()` hands its
+connection back to the pool, and the loop goes round: a new `_connect_and_send_request` to another host —
+inside the SAME `with timer` and with the SAME total handle (it is cancelled only when the final
+response's connection is released); `connect` / `sock_connect` start afresh for the new connection. -/
+def resetHop (s : St) : St :=
+  { s with pc := .idle, slot := .none, tr := .none, pooled := false, oldPooled := s.oldPooled + 1,
+                         headDone := false, eof := false, buffered := 0, respReleased := false, hdrAt := none,
+                         readT := none, reqSent := false, wait100 := false, redir := false, wake := none,
+                         wr := if s.wr = .parked then .cancelled else s.wr,
+                         dnsWaitR := false, poolQ := s.poolQ.filter (· ≠ Who.R),
+                         hop := s.hop + 1, attOff := s.attOff + s.attempt + 1 }
+
+def redirectStep (cfg : Cfg) (s : St) : St :=
+  let s := armConn cfg (releaseWaiter cfg (resetHop s))
+  if !slotFree cfg s then { s with pc := .poolWait, poolQ := s.poolQ ++ [.R], wake := none }
+  else createConn cfg s
+
 /-- resume the task of R if something is pending (a requested cancellation wins) -/
 def resumeR (cfg : Cfg) (s : St) : St :=
   if s.pc.isDone ∨ s.pc = .idle then s
@@ -441,6 +472,7 @@ def resumeR (cfg : Cfg) (s : St) : St :=
       -- again for the handshake — still inside `ceil_timeout(sock_connect)`
       if cfg.https ∧ !s.tls then { s with tls := true } else afterConnect cfg { s with tls := false }
     | .headers =>
+      if s.redir then redirectStep cfg s else
       match afterHeaders cfg s with
       | (s, none) => s
       | (s, some e) => throwAt cfg { s with pc := .body } e
@@ -468,7 +500,7 @@ def interimStep (cfg : Cfg) (s : St) : St :=
     else reschedRead cfg { s with wait100 := false, wr := .finished, reqSent := true }
   else s
 
-def deliver (cfg : Cfg) (s : St) (p : Piece) : St :=
+def deliverCore (cfg : Cfg) (s : St) (p : Piece) : St :=
   if s.tr ≠ .open then s
   else if s.rpaused then { s with queued := s.queued ++ [p] }
   else
@@ -485,6 +517,11 @@ def deliver (cfg : Cfg) (s : St) (p : Piece) : St :=
       -- `_response_eof` is registered once `start` has returned
       let s := if p.eof ∧ s.hdrAt.isSome then releaseConn cfg s else s
       if s.pc = .body ∧ s.wake = none ∧ (p.bodyBytes > 0 ∨ p.eof) then { s with wake := some .result } else s
+
+/-- `deliverCore`, plus: remember that the head just completed is a redirect that will be followed -/
+def deliver (cfg : Cfg) (s : St) (p : Piece) : St :=
+  let s' := deliverCore cfg s p
+  if s.tr = .open ∧ !s.rpaused ∧ !s.headDone ∧ p.headDone ∧ p.redirect then { s' with redir := true } else s'
 
 /-- bytes that arrived while the transport was paused are delivered after `resume_reading` -/
 def flushQueued (cfg : Cfg) : Nat → St → St
@@ -534,9 +571,9 @@ def applyEv (cfg : Cfg) (s : St) : Ev → St
       let s := if s.cpc = .dnsOwner ∨ s.cpc = .dnsWaiter then { s with cpc := .ok } else s
       if (s.pc = .dnsOwner ∨ s.pc = .dnsWaiter) ∧ s.wake = none then { s with wake := some .result } else s
   | .connDone i =>
-    if s.pc = .connecting ∧ s.attempt = i ∧ !s.tls ∧ s.wake = none then { s with wake := some .result } else s
+    if s.pc = .connecting ∧ s.attempt + s.attOff = i ∧ !s.tls ∧ s.wake = none then { s with wake := some .result } else s
   | .tlsDone i =>
-    if s.pc = .connecting ∧ s.attempt = i ∧ s.tls ∧ s.wake = none then { s with wake := some .result } else s
+    if s.pc = .connecting ∧ s.attempt + s.attOff = i ∧ s.tls ∧ s.wake = none then { s with wake := some .result } else s
   | .writeResume =>
     if s.wr = .parked ∧ !s.wait100 ∧ s.tr = .open then reschedRead cfg { s with wr := .finished, reqSent := true } else s
   | .bytes p => deliver cfg s p
